@@ -811,4 +811,93 @@ example :
     groupBlocks [(a, .name 90), (b, .dflt), (b, .name 90)] = [(.name 90, [a]), (.dflt, [b]), (.name 90, [b])] := by
   decide
 
+/-! ### one prologue threaded through the request -/
+
+/-- operations of one request run in order over (dataset × prologue): running `es₁ ; es₂` is running `es₂`
+    from the dataset AND the prologue `es₁` ended with -/
+def Statement_request_in_order_prologue : Prop :=
+  ∀ (c : Cfg) (T : Tables) (es₁ es₂ : List PElem) (r : PRun),
+    runPRequest c T (es₁ ++ es₂) r = runPRequest c T es₂ (runPRequest c T es₁ r)
+
+theorem request_in_order_prologue : Statement_request_in_order_prologue := by
+  intro c T es₁ es₂ r
+  simp [runPRequest, List.foldl_append]
+
+/-- the prologue in force after a request prefix is what ALL declarations written so far, in order, give —
+    whether the request failed on the way or not; so the operation of the next element `e` is read under
+    the declarations of every earlier element plus its own -/
+def Statement_prologue_in_force : Prop :=
+  ∀ (c : Cfg) (T : Tables) (es : List PElem) (r : PRun),
+    (runPRequest c T es r).pro = (es.flatMap (fun e => e.1)).foldl (Prologue.declare T) r.pro
+
+theorem prologue_in_force : Statement_prologue_in_force := by
+  intro c T es
+  induction es with
+  | nil => intro r; rfl
+  | cons e rest ih =>
+    intro r
+    have hstep : (PRun.step c T r e).pro = e.1.foldl (Prologue.declare T) r.pro := by
+      unfold PRun.step
+      simp only
+      cases e.2 (e.1.foldl (Prologue.declare T) r.pro) <;> rfl
+    simp only [runPRequest, List.foldl_cons] at ih ⊢
+    rw [ih, hstep, List.flatMap_cons, List.foldl_append]
+
+/-- a BASE stays in force until the next BASE: PREFIX declarations do not touch it (and vice versa a BASE
+    does not touch the prefixes) -/
+def Statement_base_persists : Prop :=
+  ∀ (T : Tables) (ds : List Decl) (p : Prologue),
+    ((∀ d ∈ ds, ∀ b, d ≠ .base b) → (ds.foldl (Prologue.declare T) p).base = p.base) ∧
+    ((∀ d ∈ ds, ∃ b, d = .base b) → (ds.foldl (Prologue.declare T) p).prefixes = p.prefixes)
+
+theorem base_persists : Statement_base_persists := by
+  intro T ds
+  induction ds with
+  | nil => intro p; exact ⟨fun _ => rfl, fun _ => rfl⟩
+  | cons d rest ih =>
+    intro p
+    constructor
+    · intro h
+      rw [List.foldl_cons, (ih _).1 (fun d' hd' => h d' (List.mem_cons_of_mem _ hd'))]
+      cases d with
+      | base b => exact absurd rfl (h _ List.mem_cons_self b)
+      | «prefix» x ns => rfl
+      | prefixRel x r =>
+        simp only [Prologue.declare]
+        split
+        · split <;> rfl
+        · rfl
+    · intro h
+      rw [List.foldl_cons, (ih _).2 (fun d' hd' => h d' (List.mem_cons_of_mem _ hd'))]
+      obtain ⟨b, rfl⟩ := h d List.mem_cons_self
+      rfl
+
+/-- without declarations and with operations that do not depend on the prologue, the request over
+    (dataset × prologue) is the plain `runRequest` -/
+def Statement_prologue_free_request : Prop :=
+  ∀ (c : Cfg) (T : Tables) (ops : List Op) (r : Run) (p : Prologue),
+    (runPRequest c T (ops.map (fun op => (([], fun _ => some op) : PElem))) ⟨r, p⟩).run =
+      ops.foldl (Run.step c) r
+
+theorem prologue_free_request : Statement_prologue_free_request := by
+  intro c T ops
+  induction ops with
+  | nil => intro r p; rfl
+  | cons op rest ih =>
+    intro r p
+    simp only [runPRequest, List.map_cons, List.foldl_cons] at ih ⊢
+    have : PRun.step c T ⟨r, p⟩ ([], fun _ => some op) = ⟨r.step c op, p⟩ := rfl
+    rw [this, ih]
+
+/-- non-vacuity: BASE 0 before the first operation; the second operation's relative reference is resolved
+    against it (reference 5 under base 0 denotes IRI 1), although nothing is declared before it -/
+example :
+    let T : Tables := ⟨[((0, 5), 1)], [], []⟩
+    let ins (n : Nat) : Op := .insertData [((.const (.iri n), .const (.iri 4), .const (.iri 2)), .dflt)]
+    let e1 : PElem := ([.base 0], fun _ => some (ins 3))
+    let e2 : PElem := ([], fun pro => (pro.resolve T (.rel 5)).map ins)
+    (runPRequest ⟨.ds, true⟩ T [e1, e2] ⟨⟨⟨[], [], 0⟩, false⟩, ⟨none, []⟩⟩).run.st.quads =
+      [(.iri 3, .iri 4, .iri 2, none), (.iri 1, .iri 4, .iri 2, none)] := by
+  decide
+
 end RV.C10
